@@ -422,7 +422,11 @@ impl<'c, E: TElemT> TInterp<'c, E> {
                         }
                         self.model.remove(mi);
                         self.labels |= dump::L_REMOVE_PRESENT;
-                        match act {
+                        let nid_dup = {
+                            let nid = (payload % self.universe as u64) as u32;
+                            self.case.h("nodup") != 0 && self.model.iter().any(|e| e.id == nid && e.hash == hash)
+                        };
+                        match if nid_dup && act == 4 { 3 } else { act } {
                             3 => drop(vac),
                             4 => {
                                 // re-insert a new element with the same hash through the returned VacantEntry
